@@ -294,7 +294,12 @@ namespace sim
       static void success( const In& in, St&&... st )
       {
          log_event( Ev::SUCCESS, rid< Rule >(), 0, 0, CF, snap( in ), sid_of( st... ) );
-         maybe_fault( SITE_SUCCESS_HOOK, in );
+         // never throw from the hooks of the discard rule itself: an exception passing through an enclosing
+         // rewind guard right after the buffer was discarded is backtracking across a discard, which the
+         // documentation excludes
+         if constexpr( !std::is_same_v< Rule, pegtl::discard > ) {
+            maybe_fault( SITE_SUCCESS_HOOK, in );
+         }
       }
 
       template< typename In, typename... St >
